@@ -44,7 +44,7 @@ def strategy(draw, tier="quick"):
     if draw(st.integers(0, 3)) == 0:
         return draw(_peptide_case())
     nf = draw(st.integers(1, 2))
-    cells = draw(gen.cells(nf, lmin=4.0, lmax=20.0))
+    cells = draw(gen.cells(nf, lmin=4.0, lmax=20.0, kinds=gen.KINDS_GEOMETRY))
     n = draw(st.integers(4, 14))
     case = {"mode": "geom", "nf": nf, "cells": cells, "n": n, "seed": draw(st.integers(0, 2 ** 32 - 1)),
             "special": draw(st.sampled_from(["none", "none", "collinear", "planar"])),
